@@ -16,6 +16,9 @@ EXPLANATION = (
     "entry k>=0 at i means sizeof(Pointer)<<k == fixedSize[i] (division by shift), entry k<0 selects row -(k+1) of "
     "stoDivTable (rows distinct and inside the table, columns >= PgSize, quotient fits the element type); the lookup arrays "
     "fixedSizeFor/fixedSizeIndexFor have FixedSizeMax+1 entries and element types wide enough for the values stored. "
+    "T-lookup: the nested loop of stoInit that fills fixedSizeFor/fixedSizeIndexFor assigns the class size fixedSize[i] and the "
+    "class index i for every j from the previous class size + 1 (0 for the first) up to and including fixedSize[i], so that "
+    "with the monotone table every request size <= FixedSizeMax maps to the smallest class that holds it. "
     "Behaviour over allocation histories is not decided.")
 
 
@@ -89,10 +92,90 @@ def check_config(rep, config):
     ob("T-div", "elt", P["VP_PgSize"] // fs[0][0] <= P["VP_stoDivTableEltMax"], "stoDivTable element type too narrow")
 
 
+def check_lookup_init(rep, config):
+    """The loops of stoInit that fill fixedSizeFor / fixedSizeIndexFor give every request size j <= FixedSizeMax the
+    smallest class >= j: for class i, every j in (previous class size, fixedSize[i]] maps to fixedSize[i] / i."""
+    f = common.extract("store.c", config, trees=["stoInit"])
+    fn = f.func("stoInit")
+    par = common.parents(fn["body"])
+    where = "store.c (stoInit)[%s]" % config
+    stores = {}
+    for x in common.walk(fn["body"]):
+        if x["k"] == "BinaryOperator" and x["op"] == "=":
+            l = common.strip(x["c"][0])
+            if l is not None and l["k"] == "ArraySubscriptExpr":
+                base = common.strip(l["c"][0])
+                if base is not None and base.get("n") in ("fixedSizeFor", "fixedSizeIndexFor"):
+                    stores[base["n"]] = (x, l)
+    if set(stores) != {"fixedSizeFor", "fixedSizeIndexFor"}:
+        raise AnalysisBroken("stoInit no longer fills fixedSizeFor/fixedSizeIndexFor")
+    x, l = stores["fixedSizeFor"]
+    jvar = common.strip(l["c"][1])
+    val = common.strip(x["c"][1])
+    # enclosing loops
+    loops = []
+    p = par.get(x["id"])
+    while p is not None:
+        if p["k"] == "ForStmt":
+            loops.append(p)
+        p = par.get(p["id"])
+    if len(loops) < 2:
+        raise AnalysisBroken("stoInit: lookup arrays are not filled by a nested loop any more")
+    inner, outer = loops[0], loops[1]
+    ivar = None
+    oc = common.strip(outer["c"][1])
+    if oc is not None and oc["k"] == "BinaryOperator" and oc["op"] == "<":
+        ivar = common.strip(oc["c"][0])
+    # sz = fixedSize[i] inside the outer loop
+    szdef = None
+    for y in common.walk(outer["c"][3]):
+        if y["k"] == "BinaryOperator" and y["op"] == "=" and common.strip(y["c"][0]) is not None and val is not None \
+                and common.strip(y["c"][0]).get("did") == val.get("did"):
+            r = common.strip(y["c"][1])
+            if r is not None and r["k"] == "ArraySubscriptExpr" and common.strip(r["c"][0]).get("n") == "fixedSize" \
+                    and ivar is not None and common.strip(r["c"][1]).get("did") == ivar.get("did"):
+                szdef = y
+    def ob(inst, cond, msg):
+        if cond:
+            rep.ok("T-lookup", "%s:%s" % (config, inst))
+        else:
+            rep.violation("T-lookup", "%s:%s" % (config, inst), where, msg)
+    ob("value-is-class-size", szdef is not None, "fixedSizeFor[j] is not assigned fixedSize[i] of the class being filled")
+    ic = common.strip(inner["c"][1])
+    ob("upper-bound-inclusive", ic is not None and ic["k"] == "BinaryOperator" and ic["op"] == "<=" and jvar is not None
+       and common.strip(ic["c"][0]).get("did") == jvar.get("did") and val is not None and common.strip(ic["c"][1]).get("did") == val.get("did"),
+       "the inner loop must run j up to and including the class size: a request of exactly fixedSize[i] bytes would otherwise "
+       "be looked up in an unfilled slot")
+    x2, l2 = stores["fixedSizeIndexFor"]
+    ob("index-is-class", ivar is not None and common.strip(x2["c"][1]) is not None and common.strip(x2["c"][1]).get("did") == ivar.get("did")
+       and common.strip(l2["c"][1]).get("did") == (jvar or {}).get("did"),
+       "fixedSizeIndexFor[j] must be the index i of the class whose size is stored in fixedSizeFor[j]")
+    # lower bound of the inner loop: sz0, which the outer loop sets to 0 and then to sz + 1
+    ii = common.strip(inner["c"][0])
+    lo = common.strip(ii["c"][1]) if ii is not None and ii["k"] == "BinaryOperator" and ii["op"] == "=" else None
+    steps = []
+    for part in (outer["c"][0], outer["c"][2]):
+        for y in common.walk(part):
+            if y["k"] == "BinaryOperator" and y["op"] == "=" and lo is not None and common.strip(y["c"][0]).get("did") == lo.get("did"):
+                steps.append(y["c"][1])
+    okstep = False
+    if len(steps) == 2:
+        a, b = steps
+        zero = common.const_value(a) == 0
+        bs = common.strip(b)
+        plus = (bs is not None and bs["k"] == "BinaryOperator" and bs["op"] == "+" and val is not None
+                and common.strip(bs["c"][0]).get("did") == val.get("did") and common.const_value(bs["c"][1]) in (0, 1))
+        okstep = zero and plus
+    ob("no-gap-between-classes", okstep,
+       "the inner loop must start at 0 for the first class and at (previous class size)+1 afterwards, otherwise some request "
+       "sizes are never entered in the lookup arrays")
+
+
 def run(tier):
     rep = common.Report("C10", tier, EXPLANATION)
     for config in ("compiler", "runtime"):
         check_config(rep, config)
+        check_lookup_init(rep, config)
     rep.floor("C10 table obligations", rep.obligations, 60)
     rep.assumptions.append("allocation, free, resize and collection histories are not analysed")
     return rep
